@@ -7,6 +7,11 @@ from .runnerdrive import run_runner_case
 
 
 def fmt(v):
+    if hasattr(v, "item") and not isinstance(v, (list, tuple, dict, str)):
+        try:
+            v = v.item()   # numpy scalar
+        except Exception:
+            pass
     if isinstance(v, float):
         return v.hex() if v == v and v not in (float("inf"), float("-inf")) else repr(v)
     if isinstance(v, (list, tuple)):
